@@ -560,7 +560,7 @@ def run(tier: str, seed: int) -> Result:
     for i, cfg in enumerate(cfgs):
         noise, sd, addrs, depth, bound = cfg[:5]
         opts = cfg[5] if len(cfg) > 5 else ""
-        left = max(5.0, (t_end - time.monotonic()) / (len(cfgs) - i))
+        left = max(5.0, (t_end - time.monotonic()) / min(3, len(cfgs) - i))  # most configurations finish far below their share: a hungry one may take a third of what is left
         _world.CONNECT_EXC[0] = OverflowError("connect(): port must be 0-65535.") if opts == "weird-connect" else None
         try:
             st = explore_parallel(factory, (noise, sd, addrs), depth=depth, bound=bound, budget_s=left, split_depth=1)
